@@ -37,13 +37,16 @@ type c03Sample struct {
 func init() {
 	register(&Prop{
 		ID:   "C03",
-		Rule: "each run puts the real proxy handler behind an optional matcher (prefetched bytes), consume-k and wrapping handlers (throttle, proxy_protocol, tls), optionally TLS towards the upstreams (the proxy's tls option; half-close as close_notify), with 1..3 peers in the selected upstream scripted as sink / echo / source / reply-after-EOF / duplex, position-coded payloads both ways (0..~100KB, 1MiB in thorough), all chunkings, windows and latencies, and the order of half-closes (client first, upstream first while the client keeps sending, full close); a separate fault configuration adds client/upstream resets and stalls. Oracle: reference streams both ways, EOF propagation while the other direction still flows, handler return, closure of every upstream connection, goroutine census, bounded liveness. Non-trivial: both directions carried data or a half-close was propagated; distinct: event-log hashes.",
+		Rule: "each run puts the real proxy handler behind an optional matcher (prefetched bytes), consume-k and wrapping handlers (throttle, proxy_protocol, tls), optionally TLS towards the upstreams (the proxy's tls option; half-close as close_notify), with 1..3 peers in the selected upstream scripted as sink / echo / source / reply-after-EOF / duplex, position-coded payloads both ways (0..~100KB, 1MiB in thorough), all chunkings, windows and latencies, and the order of half-closes (client first, upstream first while the client keeps sending, full close); a separate fault configuration adds client/upstream resets and stalls. One run in eight is the datagram variant: the real UDP server loop in front of the proxy dialling simulated UDP upstreams (1..2 peers, sink or echo), datagram loss/duplication/reordering, gaps beyond the idle timeout (fresh association, fresh upstream connections); every connection of a peer receives a contiguous in-order run of the client's arrivals, nothing is lost except in an ending association, replies return to the client, every upstream connection is closed and every handler returns. Oracle: reference streams both ways, EOF propagation while the other direction still flows, handler return, closure of every upstream connection, goroutine census, bounded liveness. Non-trivial: both directions carried data or a half-close was propagated; distinct: event-log hashes.",
 		Run:  runC03,
 		MaxSteps: 60000,
 	})
 }
 
 func runC03(t *testing.T, e *worlds.Env, tier string) (bool, any) {
+	if e.T.Prob(1, 8, "udp-relay") {
+		return runC03UDP(t, e, tier)
+	}
 	sample := &c03Sample{}
 	var w *worlds.TCPWorld
 	var cl *worlds.Client
